@@ -345,8 +345,8 @@ MANIFEST_TEXT = {
     "C12": dict(
         text=("The stream surface is simulated (chunked and interrupted Read / Write, back-to-back values through one "
               "encoder / decoder); the value quantifier is covered by seeded generation over a typed universe - stated "
-              "as such: only the stream dimension is simulation proper. The universe has 140 types: every type constructor "
-              "the serializer supports except SmallVec / BitVec (feature-gated), derived structs and enums with skipped "
+              "as such: only the stream dimension is simulation proper. The universe has 148 types: every type constructor "
+              "the serializer supports, SmallVec and BitVec included (features on), derived structs and enums with skipped "
               "fields in every position, a 140-variant enum."),
         design_ref="DESIGN.md section 4 C12",
         note="trusted: V::same comparisons (bit-exact floats), the sentinel check",
@@ -356,7 +356,7 @@ MANIFEST_TEXT = {
         text=("History and process are the simulated dimensions (construction histories of unordered collections "
               "under a seeded BuildHasher, a second process); discrimination is checked on near-miss pairs with a "
               "recording hasher; for every sequence-like type the near miss moves the boundary between two adjacent "
-              "sequences. 97 types, hash-only ones (BinaryHeap, OsString, CString) included."),
+              "sequences. 102 types, hash-only ones (BinaryHeap, OsString, CString, SmallVec, BitVec, FlexStr) included."),
         design_ref="DESIGN.md section 4 C13",
         note="trusted: the recording hasher's canonical stream; near-miss generators",
         technique="deterministic simulation of construction histories and a second process; recorded-stream oracle",
